@@ -324,7 +324,25 @@ func runAdv(seed uint64, cfg *C19Config, prog []Op, recs []stepRec, st *C19Stats
 		op := prog[k]
 		w.step = k
 		P.BeginOp(0, op.Adv)
+		ledgerDR, ledgerDH := P.stats.DoubleReturn, P.stats.DupHandout
 		o := w.Exec(&op)
+		if P.stats.DoubleReturn > ledgerDR || P.stats.DupHandout > ledgerDH {
+			// the invariant behind the whole property: what is in a free list is in it once, and is handed to one
+			// owner at a time. (Exact: the ledger knows an object as "returned" only while a free list still holds
+			// it, so its address cannot have been reused.)
+			what := "gave the same object back to a pool twice without having borrowed it in between"
+			if P.stats.DupHandout > ledgerDH {
+				what = "was handed an object by a pool that another owner still holds (it is in the free list twice)"
+			}
+			kinds := [...]string{"ints", "OpOpt", "scalar buffer"}
+			kd := "?"
+			if k := int(P.lastDouble >> 8); k < len(kinds) {
+				kd = fmt.Sprintf("%s pool, class %d", kinds[k], P.lastDouble&0xff)
+			}
+			viol = &Violation{Property: "C19", Kind: "pool-ledger", Step: k, FailOp: op.Name, Class: "double-return",
+				Detail: fmt.Sprintf("%s %s (%s)", op.Name, what, kd)}
+			break
+		}
 		if op.Adv != 0 {
 			ar := RNG{s: op.Adv ^ 0x5eed}
 			w.callerScribble()
